@@ -25,23 +25,27 @@ namespace sqf::parser::preprocessor
             // Handles correct progression of line, col and off
             char _next()
             {
-                if (off >= content.length())
+                // a loop, not a recursion: a run of carriage returns costs no stack
+                for (;;)
                 {
-                    return '\0';
-                }
-                char c = content[off++];
-                switch (c)
-                {
-                case '\n':
-                    line++;
-                    last_col = col;
-                    col = 0;
-                    return c;
-                case '\r':
-                    return _next();
-                default:
-                    col++;
-                    return c;
+                    if (off >= content.length())
+                    {
+                        return '\0';
+                    }
+                    char c = content[off++];
+                    switch (c)
+                    {
+                    case '\n':
+                        line++;
+                        last_col = col;
+                        col = 0;
+                        return c;
+                    case '\r':
+                        continue;
+                    default:
+                        col++;
+                        return c;
+                    }
                 }
             }
         public:
@@ -80,63 +84,73 @@ namespace sqf::parser::preprocessor
             // Comments will be skipped automatically.
             char next()
             {
-                char c = _next();
-                if (!is_in_string && (c == '/' || is_in_block_comment))
+                // One pass per skipped comment or line continuation (a loop, not a recursion: any number of
+                // them in a row costs no stack); `continue` reads the character behind what was skipped.
+                for (;;)
                 {
-                    if (c == '\n')
+                    char c = _next();
+                    if (!is_in_string && (c == '/' || is_in_block_comment))
                     {
-                        return c;
-                    }
-                    auto pc = peek();
-                    if (is_in_block_comment && c == '*' && pc == '/')
-                    {
-                        _next();
-                        is_in_block_comment = false;
-                        c = next();
-                        return c;
-                    }
-                    else if (pc == '*' || is_in_block_comment)
-                    {
-                        if (!is_in_block_comment)
+                        if (c == '\n')
+                        {
+                            return c;
+                        }
+                        auto pc = peek();
+                        if (is_in_block_comment && c == '*' && pc == '/')
                         {
                             _next();
+                            is_in_block_comment = false;
+                            continue;
                         }
-                        is_in_block_comment = true;
-                        while ((c = _next()) != '\0')
+                        else if (pc == '*' || is_in_block_comment)
                         {
-                            if (c == '\n')
-                            {
-                                break;
-                            }
-                            else if (c == '*' && peek() == '/')
+                            if (!is_in_block_comment)
                             {
                                 _next();
-                                is_in_block_comment = false;
-                                return next();
+                            }
+                            is_in_block_comment = true;
+                            bool comment_closed = false;
+                            while ((c = _next()) != '\0')
+                            {
+                                if (c == '\n')
+                                {
+                                    break;
+                                }
+                                else if (c == '*' && peek() == '/')
+                                {
+                                    _next();
+                                    is_in_block_comment = false;
+                                    comment_closed = true;
+                                    break;
+                                }
+                            }
+                            if (comment_closed)
+                            {
+                                continue;
                             }
                         }
+                        else if (pc == '/')
+                        {
+                            while ((c = _next()) != '\0' && c != '\n');
+                        }
                     }
-                    else if (pc == '/')
+                    if (c == '\\' && !is_in_string)
                     {
-                        while ((c = _next()) != '\0' && c != '\n');
+                        auto pc1 = peek(0);
+                        auto pc2 = peek(1);
+                        if ((pc1 == '\r' && pc2 == '\n') || pc1 == '\n')
+                        {
+                            _next();
+                            ++swallowed_newlines;
+                            continue;
+                        }
                     }
-                }
-                if (c == '\\' && !is_in_string)
-                {
-                    auto pc1 = peek(0);
-                    auto pc2 = peek(1);
-                    if ((pc1 == '\r' && pc2 == '\n') || pc1 == '\n')
+                    if (c == '"')
                     {
-                        _next();
-                        ++swallowed_newlines;
-                        return next();
+                        is_in_string = !is_in_string;
                     }
+                    return c;
                 }
-                if (c == '"')
-                {
-                    is_in_string = !is_in_string;
-                }
-                return c;
             }
 
             std::string get_word()
@@ -215,23 +229,26 @@ namespace sqf::parser::preprocessor
             // Not supposed to be used more then once!
             void move_back()
             {
-                if (off == 0)
+                // carriage returns in front of the character are stepped over in the same loop
+                for (;;)
                 {
-                    return;
-                }
-                char c = content[--off];
-                switch (c)
-                {
-                case '\n':
-                    line--;
-                    col = last_col;
-                    break;
-                case '\r':
-                    move_back();
-                    break;
-                default:
-                    col--;
-                    break;
+                    if (off == 0)
+                    {
+                        return;
+                    }
+                    char c = content[--off];
+                    switch (c)
+                    {
+                    case '\n':
+                        line--;
+                        col = last_col;
+                        return;
+                    case '\r':
+                        continue;
+                    default:
+                        col--;
+                        return;
+                    }
                 }
             }
             ::sqf::runtime::diagnostics::diag_info to_diag_info() const { return { line, col, off, pathinf, {} }; }
